@@ -59,11 +59,20 @@ Definition canonical_name (nm : names_map) (e : expr) : string :=
     [w_no_array_alias] = patches/0008 (no trailing alias line for an array, since the alias line is a
     zero-bit extension), [w_input_labels] = patches/0010 (a bad/constraint label is not named
     after an input it refers to directly, so that the input keeps its name on its declaration) *)
-Record writer_variant : Type := { w_no_array_alias : bool; w_input_labels : bool; w_symbol_labels : bool }.
-Definition writer_cur : writer_variant := {| w_no_array_alias := false; w_input_labels := false; w_symbol_labels := false |}.
-Definition writer_fix : writer_variant := {| w_no_array_alias := true; w_input_labels := true; w_symbol_labels := false |}.
+Record writer_variant : Type :=
+  { w_no_array_alias : bool; w_input_labels : bool; w_last_label : bool; w_symbol_labels : bool }.
+Definition writer_cur : writer_variant :=
+  {| w_no_array_alias := false; w_input_labels := false; w_last_label := false; w_symbol_labels := false |}.
+Definition writer_fix : writer_variant :=
+  {| w_no_array_alias := true; w_input_labels := true; w_last_label := false; w_symbol_labels := false |}.
+(** [w_last_label] = patches/0011: only the LAST bad/constraint label that refers to an expression directly
+    is named after it (the reader keeps the last one; an earlier label with the same base takes the
+    name away from the alias line) *)
+Definition writer_fix2 : writer_variant :=
+  {| w_no_array_alias := true; w_input_labels := true; w_last_label := true; w_symbol_labels := false |}.
 (** experiment (not proposed as a patch, see patches/BTOR2-NAMES-README.txt): no label is named after any symbol *)
-Definition writer_exp : writer_variant := {| w_no_array_alias := true; w_input_labels := true; w_symbol_labels := true |}.
+Definition writer_exp : writer_variant :=
+  {| w_no_array_alias := true; w_input_labels := true; w_last_label := false; w_symbol_labels := true |}.
 
 (** [label_name_base] *)
 Definition label_base (wv : writer_variant) (sy : sys) (nm : names_map) (e : expr) (default : string) : string :=
@@ -87,10 +96,19 @@ Fixpoint uniq_all (bases : list string) (used : list string) : list string * lis
 
 Record labels : Type := { l_outputs : list string; l_constraints : list string; l_bads : list string }.
 
+Fixpoint label_bases (wv : writer_variant) (sy : sys) (nm : names_map) (default : string)
+         (l after : list expr) : list string :=
+  match l with
+  | [] => []
+  | e :: l' =>
+      (if w_last_label wv && existsb (expr_eqb e) (l' ++ after)%list then default
+       else label_base wv sy nm e default) :: label_bases wv sy nm default l' after
+  end.
+
 Definition compute_labels (wv : writer_variant) (nm : names_map) (sy : sys) : labels :=
   let '(o, u1) := uniq_all (map fst (s_outputs sy)) reserved_names in
-  let '(c, u2) := uniq_all (map (fun e => label_base wv sy nm e "_constraint"%string) (s_constraints sy)) u1 in
-  let '(b, _) := uniq_all (map (fun e => label_base wv sy nm e "_bad"%string) (s_bads sy)) u2 in
+  let '(c, u2) := uniq_all (label_bases wv sy nm "_constraint"%string (s_constraints sy) (s_bads sy)) u1 in
+  let '(b, _) := uniq_all (label_bases wv sy nm "_bad"%string (s_bads sy) []) u2 in
   {| l_outputs := o; l_constraints := c; l_bads := b |}.
 
 Definition all_labels (l : labels) : list string := (l_outputs l ++ l_constraints l ++ l_bads l)%list.
